@@ -649,10 +649,11 @@ def non_interactions(graph, t=None):
     #        for v in non_neighbors(graph, u, t):
     #            yield (u, v)
     #else:
-    nodes = set(graph)
+    nodes = set(graph) if t is None else set(graph.nodes(t=t))
     while nodes:
         u = nodes.pop()
-        for v in nodes - set(graph[u]):
+        nbrs = set(graph[u]) if t is None else set(all_neighbors(graph, u, t=t))
+        for v in nodes - nbrs:
             yield u, v
 
 
